@@ -805,6 +805,12 @@ fn compose_hangul(a: char, b: char) -> Option<char> {
     }
 }
 
+// verification hook (compiled only with `--cfg rustybuzz_verif`): add-only wrapper, property C12.
+#[cfg(rustybuzz_verif)]
+pub fn verif_compose_hangul(a: char, b: char) -> Option<char> {
+    compose_hangul(a, b)
+}
+
 pub fn decompose(ab: char) -> Option<(char, char)> {
     if let Some(ab) = decompose_hangul(ab) {
         return Some(ab);
